@@ -74,8 +74,20 @@ def comparable(lines):
     return [l for l in lines if not l.startswith("0 ") and l != "0"]
 
 
+def strip_unwind_drops(lines):
+    """a scenario that ends in a (caught) panic: the harness logs the PANIC line after the unwinding, during which the in-flight
+    clone of the running dispatcher is dropped - the model stops at the panic. DROP lines directly before a final PANIC line are
+    therefore not compared (on either side)."""
+    if not lines or not lines[-1].startswith("10 "):
+        return lines
+    k = len(lines) - 1
+    while k > 0 and lines[k - 1].startswith("15 "):
+        k -= 1
+    return lines[:k] + [lines[-1]]
+
+
 def first_diff(impl, model):
-    a, b = comparable(impl), model
+    a, b = strip_unwind_drops(comparable(impl)), strip_unwind_drops(list(model))
     for i in range(max(len(a), len(b))):
         x = a[i] if i < len(a) else "<end>"
         y = b[i] if i < len(b) else "<end>"
